@@ -3,7 +3,7 @@
 # (verifcheck ALL, one load). Prints the checks that do not exit 0 with their violations. Neither /repo's working tree nor
 # /verif/evidence is touched. Used to try behaviour-preserving refactorings (expected: nothing printed but the summary).
 set -e
-PATCH="$1"; L="${2:-$(basename "$1")}"
+PATCH="$(cd "$(dirname "$1")" && pwd)/$(basename "$1")"; L="${2:-$(basename "$1")}"
 export GOFLAGS=-mod=mod GOPROXY=off GOSUMDB=off GOTOOLCHAIN=local; unset GOWORK
 W=/tmp/trydiff/w.$$; V=/tmp/trydiff/v.$$
 mkdir -p /tmp/trydiff "$V/evidence"; cp /verif/known_findings.json "$V/"
